@@ -5,6 +5,8 @@
 (* need not be.  No wide/wide division exists on purpose: where a property mentions a quotient   *)
 (* the implementation's logged result q is checked by multiplication (q*d <= n < (q+1)*d).       *)
 (* WDivSmall divides by a single limb only (needed for ceil(n/3), ceil(n/2)).                     *)
+(* Boolean operators use IF (not a guarded disjunction): inside an action TLC explores both sides of *)
+(* a disjunction.                                                                                *)
 (* WideMC.tla model-checks every operator against native arithmetic (base 4 exhaustively, base   *)
 (* 2^15 around the limb boundaries).                                                             *)
 EXTENDS Naturals, Sequences
@@ -27,7 +29,7 @@ WEq(a, b) == WNorm(a) = WNorm(b)
 (* a <= b : at the most significant differing limb a's is smaller (or there is none) *)
 WLe(a, b) == LET n == WMaxLen(a, b)
                  d == {i \in 1..n : WLimb(a, i) # WLimb(b, i)}
-             IN d = {} \/ WLimb(a, WMaxOf(d)) < WLimb(b, WMaxOf(d))
+             IN IF d = {} THEN TRUE ELSE WLimb(a, WMaxOf(d)) < WLimb(b, WMaxOf(d))
 WLt(a, b) == ~WLe(b, a)
 
 WAdd(a, b) ==
